@@ -44,15 +44,14 @@ THEOREMS = {
     'C18_memo_transparent_nested': 'the same for a memoised function that uses other state (the name formatter on top of the cache of the name splitter)',
     'C18_caches_invariant': 'both caches of pybtex/bibtex/builtins.py satisfy the invariant (regenerated capacity) in a fresh interpreter and after '
                             'every history of calls; the wrapper\'s own bookkeeping never fails',
-    'C18_months_constant': 'no history of public calls (readers redefining jan, direct LowLevelParser use with its default or a private table, '
-                           'engine runs, failing runs) changes month_names, errors.strict or the plug-in registry; captured_errors is None again after every call',
+    'C18_months_constant': '[by construction of the model under isPublic] no history of calls satisfying Call.isPublic changes month_names, errors.strict or the registry; captured_errors is None again. isPublic EXCLUDES the ordinary API call LowLevelParser(text, macros=month_names), the only branch of step that writes the table (_neg_aliased); no aliasing elsewhere is the modelling of fix C18-1, carried by the correspondence (table compared after every call)',
     'C18_months_constant_neg_aliased': 'witness that the model can fail: a LowLevelParser whose `macros` IS the module table (the default of the pinned '
                                        'tree, DESIGN section 4 #24) alters month_names and the next reader sees the macro; with the repaired default it does not',
-    'C18_readers_independent': 'two readers never observe each other\'s @string macros, preambles or entries, whatever the first one read; '
-                               'the files of ONE reader accumulate them (reading ds1++ds2 = reading ds2 with the reader state ds1 left)',
+    'C18_readers_independent': 'conjuncts 1-2 [by construction: newReader builds a fresh value from w.months, the model has no aliasing; needs CachesInv, captured_errors None]: a second reader returns what it returns without the first. Conjunct 3 [model wiring]: readFiles (ds1++ds2) = readFiles ds2 from the state ds1 left is the append law of the recursion; real content: C18_reader_accumulates; non-leakage in Python: the correspondence',
     'C18_deterministic': 'the result of a call is a function of the call and the constant part of the world (month table, strict, captured_errors, '
                          'registry): worlds differing only in cache contents and error_code give equal results and again such worlds',
-    'C18_history_independent': 'for every finite history h of public calls at top level and every probe p: result p (run h w0) = result p w0',
+    'C18_history_independent': 'for every finite history h of calls satisfying Call.isPublic (everything except handing the module\'s own month_names dict to LowLevelParser) at top level '
+                               '(captured_errors None, caches satisfying the invariant) and every probe p: result p (run h w0) = result p w0; all un-modelled pybtex code is ASSUMED pure (Fns)',
     'C18_history_independent_fresh': '... in particular w0 = the state of a fresh interpreter',
 }
 THEOREMS.update({
@@ -67,10 +66,7 @@ THEOREMS.update({
                                     'the problem is reported through report_error (collected / raised / warned + error_code), the result is the '
                                     'empty string, the formatter cache and the month table are untouched; a number inside the range always finds '
                                     'its name (the indexing inside the memoised body never raises IndexError)',
-    'C18_cli_main_independent': 'a command-line main() called in-process (CommandLine.main, after proposed fix C18-3): its exit status after any '
-                                'history (earlier main() runs with warnings included) is its status in the initial world and does not depend on '
-                                'the accumulated error_code; errors.strict is as before afterwards (with or without --strict); every probe after '
-                                'h ++ [main()] returns what it returns in the initial world',
+    'C18_cli_main_independent': 'in-process main() (CommandLine.main after fix C18-3), top level, histories of isPublic calls: its exit status after any history (earlier main() runs with warnings included) is its status in the initial world; errors.strict is put back; every probe after h ++ [main()] returns what it returns initially. Conjunct 2 "independent of the accumulated error_code" is [model wiring] (rfl: the model of C18-3 resets it first); pinned code: _neg_pinned',
     'C18_cli_main_neg_pinned': 'witness that the model can fail: with CommandLine.main as on the pinned tree (strict never put back, status = sticky '
                                'error_code) three runs good / warning / good exit 0, 2, 2, strict stays False and a later API parse of an '
                                'undefined macro no longer raises',
@@ -100,7 +96,9 @@ TRUSTED = ['introspection of the closure cells `memory`/`history`/`capacity` of 
            'Python == on the argument tuples of the memoised functions is structural equality (str and int arguments only)',
            'deep_freeze (harness): the canonical JSON of every attribute reachable from a database object is what "the database" means for '
            '"never modifies it"']
-ASSUMPTIONS = ['everything outside the named state (month table, the two memo closures, errors.*, _RUNTIME_PLUGINS) reaches it only through '
+ASSUMPTIONS = ['histories consist of calls satisfying Call.isPublic: no call hands the module\'s own month_names dict to LowLevelParser as its in/out `macros` argument (an ordinary API call; '
+               'it alters the table: C18_months_constant_neg_aliased)',
+               'everything outside the named state (month table, the two memo closures, errors.*, _RUNTIME_PLUGINS) reaches it only through '
                'report_error, format.name$, find_plugin and a fresh .bib reader; hidden caches of re / PyYAML / xml / latexcodec are covered only '
                'empirically (fresh-process comparison)',
                'histories run at top level (not inside an enclosing errors.capture())',
@@ -1733,7 +1731,10 @@ LEVEL_NOTE = ('PARTIAL BY NATURE.  Modelled: month_names (one table; Parser copi
               'of re, PyYAML, xml, latexcodec, importlib.metadata are covered only empirically by the fresh-process comparison; so is the '
               'citation handling of the engines after reading.  .bib text is '
               'abstracted to its command sequence (tokenising is C01).  error_code is sticky by design (process exit status): the theorems show no '
-              'result reads it except main(), which resets it first (C18-3).  Histories are taken at top level (captured_errors None).  "Inputs never '
+              'result reads it except main(), which resets it first (C18-3).  Histories are taken at top level (captured_errors None).  "Public" in the theorems is the predicate '
+              'Call.isPublic, which excludes exactly one ordinary API call: LowLevelParser(text, macros=<the module\'s own month_names dict>) (it writes the table: C18_months_constant_neg_aliased).  '
+              'Month-table constancy and reader isolation then hold BY CONSTRUCTION of a model without aliasing (the modelling of fix C18-1), as does "main() ignores the accumulated error_code" '
+              '(the model of C18-3 resets it): what carries these claims for the Python code is the correspondence (month table, errors.* compared after every call; fresh-interpreter probes).  "Inputs never '
               'modified" is a claim about Python object '
               'state that the pure model cannot express: it is checked on the implementation only (every attribute of the database deep-frozen '
               'before/after to_string, format_bibliography and format_entries; multi-element citation and entry lists compared).  The model follows '
